@@ -4,13 +4,14 @@ C08 — Method calls and objects bind arguments, receivers and results correctly
 import ZnVerif.Model.Interp
 import ZnVerif.Proofs.Handlers
 import ZnVerif.Proofs.OutGrows
+import ZnVerif.Proofs.StackBalBlock
 import ZnVerif.Proofs.Toy
 set_option linter.unusedSectionVars false
 set_option linter.unusedSimpArgs false
 set_option linter.unusedVariables false
 
 namespace ZnVerif.Properties.C08
-open ZnVerif.Model ZnVerif.Proofs.Calls ZnVerif.Proofs.Balance
+open ZnVerif.Model ZnVerif.Proofs.Calls ZnVerif.Proofs.Balance ZnVerif.Proofs.StackBal
 
 variable {ν : Type} [NumOps ν]
 
@@ -216,7 +217,7 @@ theorem block_value_is_return (n : Nat) (inputs : List Ident) (body : Option (Li
 
 /-- a direct call yields the callee's value and pops the callee's frame: the stack is the caller's again, and with it
 the current module -/
-theorem call_result_is_return (n : Nat) (fname : String) (params : List Addr) (s s2 : VM ν) (fv : Addr) (mid : Int)
+theorem call_result_is_return_of_stack (n : Nat) (fname : String) (params : List Addr) (s s2 : VM ν) (fv : Addr) (mid : Int)
     (f : FnRef) (v : Addr) (fr' : Frame)
     (hfind : findElementWithModule fname s = (.ok (fv, mid), s)) (hcell : s.heap[fv]? = some (.fn f))
     (hrun : execFunction n f none params (pushFrame { moduleId := mid, callType := 2 } s).2 = (.ok v, s2))
@@ -237,6 +238,44 @@ theorem call_result_is_return (n : Nat) (fname : String) (params : List Addr) (s
   simp only
   rw [bind_ok hrun, bind_ok (popFrame_cons s2 fr' s.stack hbal)]
   rfl
+
+/-- the same without any assumption about the callee: a callee that ends normally has left exactly its own frame on
+top of the caller's stack (`allBal`: calls are balanced and loop signals stop at body boundaries), so the call
+yields the callee's value with the caller's stack and module -/
+theorem call_result_is_return (n : Nat) (fname : String) (params : List Addr) (s s2 : VM ν) (fv : Addr) (mid : Int)
+    (f : FnRef) (v : Addr)
+    (hfind : findElementWithModule fname s = (.ok (fv, mid), s)) (hcell : s.heap[fv]? = some (.fn f))
+    (hrun : execFunction n f none params (pushFrame { moduleId := mid, callType := 2 } s).2 = (.ok v, s2)) :
+    execDirectFunction (n+1) fname params s =
+      (.ok v, { s2 with stack := s.stack, csModuleID := topModule s.stack }) := by
+  have h := ((allBal (ν := ν) n).execFunction f none params).same
+    (pushFrame { moduleId := mid, callType := 2 } s).2 (by rw [hrun]; rfl)
+  rw [hrun, (pushFrame_run (ν := ν) { moduleId := mid, callType := 2 } s).2.1] at h
+  obtain ⟨fr', hs, _⟩ := norm_cons_eq h
+  exact call_result_is_return_of_stack n fname params s s2 fv mid f v fr' hfind hcell hrun hs
+
+/-- method calls and 新建 likewise: a call that ends normally leaves the caller's stack (up to `line` / `ret` of its top
+frame) and the caller's module -/
+theorem method_call_restores_caller (n : Nat) (root : Addr) (fname : String) (params : List Addr) (s s' : VM ν)
+    (v : Addr) (hi : s.csModuleID = topModule s.stack)
+    (h : execMethodFunction n root fname params s = (.ok v, s')) :
+    SameStack s.stack s'.stack ∧ s'.csModuleID = s.csModuleID ∧
+    getThis s' = (.ok (s.stack.head?.bind (·.this)), s') := by
+  have hb := (allBal (ν := ν) n).execMethodFunction root fname params
+  have h1 := hb.same s (by rw [h]; rfl)
+  have h2 := hb.inv s hi
+  rw [h] at h1 h2
+  exact ⟨h1, by rw [hi]; rw [← topModule_norm h1]; exact h2, getThis_of_norm h1⟩
+
+theorem construct_restores_caller (n : Nat) (cv : Addr) (params : List Addr) (s s' : VM ν)
+    (v : Addr) (hi : s.csModuleID = topModule s.stack) (h : construct n cv params s = (.ok v, s')) :
+    SameStack s.stack s'.stack ∧ s'.csModuleID = s.csModuleID ∧
+    getThis s' = (.ok (s.stack.head?.bind (·.this)), s') := by
+  have hb := (allBal (ν := ν) n).construct cv params
+  have h1 := hb.same s (by rw [h]; rfl)
+  have h2 := hb.inv s hi
+  rw [h] at h1 h2
+  exact ⟨h1, by rw [hi]; rw [← topModule_norm h1]; exact h2, getThis_of_norm h1⟩
 
 /-- 得到 binds a constant: assigning to the name afterwards is error 44 and changes nothing -/
 theorem yield_binds_const (y : Ident) (res w : Addr) (s s' : VM ν) (r : Addr) (hy : IsName y.lit)
@@ -441,8 +480,15 @@ example : ∃ t2, execBlockBody 4 [] (some [.ret 0 (.str 0 "x")]) [] [] s0 = (.o
 
 /-- calling `f` (输出 “x”): the value is the text, the stack afterwards is the caller's -/
 example : (execDirectFunction 7 "f" [] sF).1 = .ok 1 ∧ (execDirectFunction 7 "f" [] sF).2.stack = sF.stack := by
-  rw [call_result_is_return 6 "f" [] sF _ 0 0 _ 1 _ rfl rfl rfl rfl]
+  rw [call_result_is_return 6 "f" [] sF _ 0 0 _ 1 rfl rfl rfl]
   exact ⟨rfl, rfl⟩
+
+/-- `以 5（向下取整）` and `新建 点：7` from the script frame: stack, module (0) and 其 (none) are the caller's afterwards -/
+example : (execMethodFunction 2 0 "向下取整" [] sN).2.csModuleID = 0 :=
+  (method_call_restores_caller 2 0 "向下取整" [] sN _ 1 rfl rfl).2.1
+
+example : SameStack sC.stack (construct 6 0 [] sC).2.stack :=
+  (construct_restores_caller 6 0 [] sC _ 3 rfl rfl).1
 
 /-- `… 得到 r` then `r = …`: error 44 -/
 example : ∃ s' : VM Int, setElement "r" 1 s' = (.err (.rt 44), s') :=
